@@ -60,10 +60,8 @@ SPEC_FLOW = {1: {2}, 2: {3}, 3: {4, 'done'}, 4: {5, 6}, 5: {3}, 6: {4}}
 
 def check(ctx):
     idx = ctx.index
-    d1_nomut(ctx, idx)
-    d2_init(ctx, idx)
-    d3_results(ctx, idx)
-    d4_steps(ctx, idx)
+    for fn in (d1_nomut, d2_init, d3_results, d4_steps):
+        cm.guarded(ctx, fn, idx)
 
 
 def solver_rules(r, idx):
@@ -262,6 +260,17 @@ def _fresh_matrix(r, idx, fi, pname, label):
     key = ('param', pname)
     for ret in rets:
         v = ret.value
+        if isinstance(v, ast.ListComp):
+            r.ok('%s: outer list' % label, 'a new list is built by a comprehension', lib.loc(fi, ret))
+            e = v.elt
+            construct = '%s: row `%s`' % (label, short(e, 40))
+            if key in fx.origins(e):
+                r.violation(construct, "a row of the returned matrix may be a row of the caller's matrix instead of a copy: padding extends it "
+                            "and steps 1 and 6 subtract from / add to its entries, so the caller's matrix changes", lib.loc(fi, ret),
+                            expected='a new row per row of the argument', found=short(e))
+            else:
+                r.ok(construct, 'fresh list (copy idiom or new display)', lib.loc(fi, ret))
+            continue
         if not isinstance(v, ast.Name):
             if v is not None and key in fx.origins(v):
                 r.violation('%s: returned matrix' % label, 'returns `%s`, which may be the argument itself' % short(v), lib.loc(fi, ret))
@@ -435,6 +444,9 @@ def init_body(r, idx):
         if flow is None and (not nodes or not cfg.dominates(nodes, loop_nodes)):
             r.undecided(construct, ftext, comp.loc)
             continue
+        if not nodes and cm.calls_unreviewed(idx, comp.node):
+            r.undecided(construct, 'not assigned in compute(); un-inlined helpers %s are called' % cm.calls_unreviewed(idx, comp.node), comp.loc)
+            continue
         if not nodes:
             r.violation(construct, 'self.%s is read by %s but compute() never assigns it: on a reused solver the value '
                         'left by the previous solve is used (and on a new one the constructor default)' % (f, needed[f]),
@@ -500,11 +512,10 @@ def results_body(r, idx):
             ex.col_idx.id: ('original_width', 'columns', 'len(cost_matrix[0])')}
     for var, (field, what, src) in want.items():
         construct = 'Munkres.compute: result loop over %s' % what
-        loop = ex.loops.get(var)
-        if loop is None:
-            r.undecided(construct, 'index %s of marked[..] is not a for-loop variable' % var, lib.loc(comp, ex.test))
+        if var not in ex.loops:
+            r.undecided(construct, 'index %s of marked[..] is not a loop variable' % var, lib.loc(comp, ex.test))
             continue
-        it = loop.iter
+        it, loop = ex.loops[var]
         where = lib.loc(comp, loop)
         if cm.is_call_to(it, 'range', 1):
             b = it.args[0]
@@ -547,10 +558,9 @@ def results_body(r, idx):
     res = nf.classify('%s.marked[_I][_J] == 1' % selfn, ex.test)
     r.verdict('Munkres.compute: star test', res, lib.loc(comp, ex.test), ok_detail='marked[i][j] == 1 (starred zero)',
               expected='self.marked[i][j] == 1')
-    others = [g for g in cm.guards_of(ex.emit_stmt, stop=comp.node) if not nf.equal(g, t)]
-    if others:
-        r.undecided('Munkres.compute: star test', 'pairs are emitted under extra conditions: %s' % '; '.join(short(g) for g in others),
-                    lib.loc(comp, ex.emit_stmt))
+    if ex.extra:
+        r.undecided('Munkres.compute: star test', 'pairs are emitted under extra conditions: %s' % '; '.join(short(g) for g in ex.extra),
+                    lib.loc(comp, ex.emit_node))
     # emitted pair
     a, b = ex.pair.elts
     construct = 'Munkres.compute: emitted pair'
@@ -561,16 +571,20 @@ def results_body(r, idx):
                     lib.loc(comp, ex.pair), expected='(%s, %s)' % (ex.row_idx.id, ex.col_idx.id), found=unparse(ex.pair))
     else:
         r.undecided(construct, 'pair `%s` is not made of the two loop indices' % unparse(ex.pair), lib.loc(comp, ex.pair))
-    for ret in ex.returns:
-        r.check(cm.is_name(ret.value, ex.sink), 'Munkres.compute: return', 'returns the collected pairs',
-                'compute returns `%s`, not the list the pairs are collected in (%s)' % (short(ret.value), ex.sink), lib.loc(comp, ret))
+    if not ex.returns:
+        raise AnalysisError('Munkres.compute returns nothing')
+    if ex.bad_returns:
+        for ret in ex.bad_returns:
+            r.violation('Munkres.compute: return', 'compute returns `%s`, not the collected pairs' % short(ret.value), lib.loc(comp, ret))
+    else:
+        r.ok('Munkres.compute: return', 'returns the collected pairs', lib.loc(comp, ex.returns[0]))
     if ex.emit_kind is None:
-        r.undecided(construct, 'pairs collected by unrecognised `%s`' % short(ex.emit_stmt), lib.loc(comp, ex.emit_stmt))
-    for lp in ex.nest:
-        ex_ = lib.loop_has_early_exit(lp)
-        r.check(not ex_, 'Munkres.compute: result loop `for %s`' % lp.target.id, 'visits every index',
-                'the result loop is left early (%s): starred zeros after that point are not reported'
-                % (short(ex_[0]) if ex_ else ''), lib.loc(comp, lp))
+        r.undecided(construct, 'pairs collected by unrecognised `%s`' % short(ex.emit_node), lib.loc(comp, ex.emit_node))
+    for var, it_, node in ex.nest:
+        ex_ = lib.loop_has_early_exit(node) if isinstance(node, ast.For) else []
+        r.check(not ex_, 'Munkres.compute: result loop over `%s`' % ('rows' if var == ex.row_idx.id else 'columns' if var == ex.col_idx.id else var),
+                'visits every index', 'the result loop is left early (%s): starred zeros after that point are not reported'
+                % (short(ex_[0]) if ex_ else ''), lib.loc(comp, node))
     # padding value
     _pad_value(r, idx, comp, selfn)
     # step table
@@ -680,7 +694,15 @@ def _step_flow(r, idx):
     if 3 in steps and steps[3] in methods:
         fi = methods[steps[3]]
         selfn = fi.params[0]
-        dones = [p for p in nf.decision_paths(fi.node.body)
+        raw = []
+        for p in nf.decision_paths(fi.node.body):
+            if p.leaf.kind == 'ret' and isinstance(p.leaf.expr, ast.IfExp):
+                t = nf.canon(p.leaf.expr.test)
+                raw.append(nf.Path(p.guards + [t], nf.Leaf('ret', p.leaf.expr.body, p.leaf.stmt, p.leaf.env), p.effects))
+                raw.append(nf.Path(p.guards + [nf.negate(t)], nf.Leaf('ret', p.leaf.expr.orelse, p.leaf.stmt, p.leaf.env), p.effects))
+            else:
+                raw.append(p)
+        dones = [p for p in raw
                  if p.leaf.kind == 'ret' and isinstance(p.leaf.expr, ast.Constant) and p.leaf.expr.value not in steps]
         if len(dones) == 1:
             p = dones[0]
@@ -783,6 +805,15 @@ BENIGN = [
     Benign('done-flag-logged', MK, "        done = False\n        step = 1\n", "        done = False\n        step = 1\n        logging = None\n"),
     Benign('z0-init-dropped', MK, "        self.Z0_r = 0\n        self.Z0_c = 0\n        self.path", "        self.path"),
     Benign('step1-adds-minimum', MK, "                    self.C[i][j] -= minval\n        return 2", "                    self.C[i][j] += minval\n        return 2"),
+    Benign('pairs-by-comprehension', MK, "        results = []\n        for i in range(self.original_length):\n            for j in range(self.original_width):\n                if self.marked[i][j] == 1:\n                    results += [(i, j)]\n\n        return results\n",
+           "        return [(i, j) for i in range(self.original_length) for j in range(self.original_width) if self.marked[i][j] == 1]\n"),
+    Benign('step3-conditional-return', MK, "        if count >= n:\n            step = 7 # done\n        else:\n            step = 4\n\n        return step", "        return 7 if count >= n else 4"),
+    Benign('find-smallest-continue-guards', MK, "            for j in range(self.n):\n                if (not self.row_covered[i]) and (not self.col_covered[j]):\n                    if self.C[i][j] is not DISALLOWED and minval > self.C[i][j]:\n                        minval = self.C[i][j]\n",
+           "            if self.row_covered[i]:\n                continue\n            row = self.C[i]\n            for j in range(self.n):\n                if self.col_covered[j]:\n                    continue\n                value = row[j]\n                if value is not DISALLOWED and minval > value:\n                    minval = value\n"),
+    Benign('dispatch-while-true', MK, "        while not done:\n            try:\n                func = steps[step]\n                step = func()\n            except KeyError:\n                done = True\n",
+           "        while True:\n            try:\n                step = steps[step]()\n            except KeyError:\n                break\n"),
+    Benign('make-cost-matrix-comprehension', MK, "    cost_matrix = []\n    for row in profit_matrix:\n        cost_matrix.append([inversion_function(value) for value in row])\n    return cost_matrix",
+           "    return [[inversion_function(value) for value in row] for row in profit_matrix]"),
     Benign('step6-by-cases', MK, "                if self.row_covered[i]:\n                    self.C[i][j] += minval\n                    events += 1\n                if not self.col_covered[j]:\n                    self.C[i][j] -= minval\n                    events += 1\n                if self.row_covered[i] and not self.col_covered[j]:\n                    events -= 2 # change reversed, no real difference\n",
            "                if self.row_covered[i] and self.col_covered[j]:\n                    self.C[i][j] += minval\n                    events += 1\n                elif not self.row_covered[i] and not self.col_covered[j]:\n                    self.C[i][j] -= minval\n                    events += 1\n"),
     Benign('find-smallest-de-morgan', MK, "                if (not self.row_covered[i]) and (not self.col_covered[j]):\n                    if self.C[i][j] is not DISALLOWED and minval >",
